@@ -17,13 +17,13 @@ PID = "C07"
 RULE = ("labellings = product of (orientation pattern, cycle shift, vertex-id map, edge-id map, cell-id map, insertion order, edge direction); "
         "observation = internal interfaces, equation set, tension per physical interface, pressure per physical cell; "
         "non-trivial = labelling differs from the natural one; classes = labelling class signature")
-BOUND = {"quick": "deviation bound 2 over 7 labelling classes on a 6-cell curved base; all 2^6/2^7 orientation patterns; all 720 permutations of 6 junction ids; all 120 insertion orders of a 5-cell sub-tissue; deviation bound 1 on tissues with mixed per-interface point counts (6-cell base, lens)",
-         "thorough": "d=2 on 7- and 11-cell bases and on square3x3; all 2^11 orientation patterns; 720 permutations on two tissues; all insertion orders of two 5-cell sub-tissues; d=2 on an 8-cell sub-tissue with a cell outside every internal interface and on mixed point counts (11-cell base, lens, 5-fold fan)"}
+BOUND = {"quick": "deviation bound 2 over 7 labelling classes on a 6-cell curved base; all 2^6/2^7 orientation patterns; all 720 permutations of 6 junction ids; all 120 insertion orders of a 5-cell sub-tissue; deviation bound 1 on tissues with mixed per-interface point counts (6-cell base, lens); in every state the pressure step is run a second time on the same objects (in the orientation and mixed-count systems the whole inference) and the second results are compared across labellings too",
+         "thorough": "d=2 on 7- and 11-cell bases and on square3x3; all 2^11 orientation patterns; 720 permutations on two tissues; all insertion orders of two 5-cell sub-tissues; d=2 on an 8-cell sub-tissue with a cell outside every internal interface and on mixed point counts (11-cell base, lens, 5-fold fan); second pass on the same objects as in the quick tier"}
 ASSUMPTIONS = ["cells are inserted into the dict in construction order, as every parser does", "comparison tolerance 1e-9 (coefficients), 1e-8 x conditioning (tensions, pressures)"]
-REQUIRED_TAGS = {"all": ["orient", "shift", "vmap", "emap", "cids", "order", "eflip", "pressures_compared", "tensions_compared", "undetermined_non_unique_optimum", "same_tensions_although_not_unique", "cell_without_internal_interface", "vorder", "eorder"]}
+REQUIRED_TAGS = {"all": ["orient", "shift", "vmap", "emap", "cids", "order", "eflip", "pressures_compared", "tensions_compared", "undetermined_non_unique_optimum", "same_tensions_although_not_unique", "cell_without_internal_interface", "vorder", "eorder", "second_pass_compared"]}
 
 
-def observe(at, cm, k, lab):
+def observe(at, cm, k, lab, repeat=False):
     """physical observation of one labelling"""
     import forsys as fs
     r = SC.solve_static(at, k=k, cmap=cm, lab=lab, allow_negatives=False)
@@ -63,6 +63,26 @@ def observe(at, cm, k, lab):
         obs["pressure"] = {inv[cid]: float(c.pressure) for cid, c in r.frame.cells.items()}
         pm = s.pressure_matrices[0]
         obs["prow"] = sorted([sorted(inv[x] for x in be.own_cells) for be in pm.big_edges_to_use])
+        # the same inference once more ON THE SAME OBJECTS (a user re-running the analysis, e.g. with the other circle fit and
+        # back): what the second pass reports is a result like any other and must not depend on the labelling either
+        if repeat:
+            _, ex2 = fsutil.call(s.build_force_matrix, when=0, circle_fit_method="dlite", angle_limit=np.inf, metadata={})
+            if ex2 is None:
+                _, ex2 = fsutil.call(s.solve_stress, when=0, allow_negatives=False)
+            if ex2 is None:
+                f2 = [float(s.forces[0][i]) for i in range(len(s.forces[0]))]
+                c2 = SC.column_interfaces(r.frame, s.force_matrices[0], r.info, at)
+                obs["tension2"] = {str(ii): float(x) for ii, x in zip(c2, f2)}
+        else:
+            ex2 = None
+        if ex2 is None:
+            _, ex2 = fsutil.call(s.build_pressure_matrix, when=0)
+        if ex2 is None:
+            _, ex2 = fsutil.call(s.solve_pressure, when=0, method="lagrange_pressure")
+        if ex2 is not None:
+            obs["pexc2"] = fsutil.exc_str(ex2)
+        else:
+            obs["pressure2"] = {inv[cid]: float(c.pressure) for cid, c in r.frame.cells.items()}
     return obs
 
 
@@ -110,11 +130,23 @@ def compare(o1, o2):
         scale = max(1.0, max(abs(v) for v in o1["pressure"].values()))
         if dp > tol * scale:
             viol.append({"what": "pressure of the same physical cell depends on the labelling", "detail": {"max_diff": dp, "tol": tol * scale}})
+        if ("pexc2" in o1) != ("pexc2" in o2):
+            viol.append({"what": "a second pass on the same objects raises for one labelling and not for the other", "detail": [o1.get("pexc2"), o2.get("pexc2")]})
+        elif "pressure2" in o1 and "pressure2" in o2:
+            tags.append("second_pass_compared")
+            if "tension2" in o1 and "tension2" in o2:
+                dt2 = max([abs(o1["tension2"][k] - o2["tension2"].get(k, float("inf"))) for k in o1["tension2"]] or [0.0])
+                if dt2 > tol:
+                    viol.append({"what": "tension reported by a second pass on the same objects depends on the labelling", "detail": {"max_diff": dt2, "tol": tol}})
+            dp2 = max(abs(o1["pressure2"][k] - o2["pressure2"][k]) for k in o1["pressure2"])
+            if dp2 > tol * scale:
+                viol.append({"what": "pressure reported by a second pass on the same objects depends on the labelling", "detail": {"max_diff": dp2, "tol": tol * scale}})
     return viol, tags
 
 
 class Labellings(ProductSystem):
     chunk = 4
+    repeat = False    # True: the second pass also repeats the tension inference (otherwise only the pressure step)
 
     def __init__(self, name, base_specs, bound, classes):
         """base_specs: list of [base, cells or None, mobspec, k]; classes: which axes to include"""
@@ -201,7 +233,7 @@ class Labellings(ProductSystem):
         cm = SC.make_cmap(base[2], 0.37, (0, 0), 1.0, SC.extent_of(bases.get(base[0])))
         lab = {"flips": cfg.get("orient", []), "shifts": cfg.get("shift", {}), "vmap": cfg.get("vmap"), "emap": cfg.get("emap"),
                "cids": cfg.get("cids"), "order": cfg.get("order"), "eflip": cfg.get("eflip"), "vorder": cfg.get("vorder"), "eorder": cfg.get("eorder")}
-        obs = observe(at, cm, base[3], lab)
+        obs = observe(at, cm, base[3], lab, repeat=self.repeat)
         ax = self.axes(base)
         centre = {a: ax[a][0] for a in ax}
         tags = [a for a in cfg if cfg[a] != centre[a]]
@@ -227,7 +259,7 @@ class _Counting(Labellings):
         if r["nontrivial"]:
             at = self.abstract(base)
             cm = SC.make_cmap(base[2], 0.37, (0, 0), 1.0, SC.extent_of(bases.get(base[0])))
-            o0 = observe(at, cm, base[3], {})
+            o0 = observe(at, cm, base[3], {}, repeat=self.repeat)
             viol, tags = compare(o0, r["obs"])
             for v in viol:
                 v["what"] = "[vs natural labelling] " + v["what"]
@@ -272,6 +304,10 @@ def six_junction_tissue(base):
     return None
 
 
+class _Repeating(_Counting):
+    repeat = True
+
+
 def build(tier, seed):
     M = ["m", 0.05, 0.02]
     all_cl = ["orient", "shift", "vmap", "emap", "cids", "order", "eflip", "storage"]
@@ -279,18 +315,18 @@ def build(tier, seed):
         b6 = first_connected("v5x5", 6)
         return [_Counting("labels-d2-small", [["v5x5", b6, M, 2]], 2, all_cl),
                 _Counting("labels-d1-unique", [["v5x5", None, M, 2], ["v6x5p%d" % (seed + 1), None, ["mc", 0.12, 0.05], 1]], 1, all_cl),
-                _Counting("orientations-all", [["v5x5", None, M, 1]], 1, ["orient_all"]),
+                _Repeating("orientations-all", [["v5x5", None, M, 1]], 1, ["orient_all"]),
                 _Counting("junction-perms-720", [["v5x5", None, M, 1]], 1, ["vperm720"]),
                 _Counting("insertion-orders-all", [["v5x5", None, M, 1]], 1, ["order_all"]),
                 _Counting("lattice-d1", [["square3x3", None, ["id"], 2]], 1, all_cl),
                 _Counting("two-cells-outside-d1", [["v5x5", first_with_hanging("v5x5", 7, 2), M, 2]], 1, ["orient", "cids", "order", "storage"]),
-                _Counting("mixed-point-counts-d1", [["v5x5", b6, M, ["mod3", 0, 3, 1]], ["lens", None, M, ["mod3", 2, 0, 1]]], 1, all_cl)]   # b6 contains a cell outside every internal interface
+                _Repeating("mixed-point-counts-d1", [["v5x5", b6, M, ["mod3", 0, 3, 1]], ["lens", None, M, ["mod3", 2, 0, 1]]], 1, all_cl)]   # b6 contains a cell outside every internal interface
     b7 = first_connected("v6x5", 7)
     return [_Counting("labels-d2", [["v5x5", None, M, 2], ["v6x5", b7, M, 2], ["square3x3", None, ["id"], 2]], 2, all_cl),
             _Counting("labels-d1-unique", [["v6x5", None, M, 2], ["v6x6p%d" % (seed + 1), None, ["mc", 0.12, 0.05], 1]], 1, all_cl),
-            _Counting("orientations-all", [["v5x5", None, M, 2], ["v6x5", None, ["mc", 0.12, 0.05], 1]], 1, ["orient_all"]),
+            _Repeating("orientations-all", [["v5x5", None, M, 2], ["v6x5", None, ["mc", 0.12, 0.05], 1]], 1, ["orient_all"]),
             _Counting("junction-perms-720", [["v5x5", None, M, 1], ["v6x5", None, ["id"], 2]], 1, ["vperm720"]),
             _Counting("insertion-orders-all", [["v5x5", None, M, 2], ["v6x5", None, M, 1]], 1, ["order_all"]),
             _Counting("labels-d3", [["v5x5", first_connected("v5x5", 5), M, 2]], 3, all_cl),
-            _Counting("mixed-point-counts-d2", [["v5x5", None, M, ["mod3", 0, 3, 1]], ["lens", None, M, ["mod3", 2, 0, 1]], ["fan5", None, M, ["mod3", 1, 0, 4]]], 2, all_cl),
+            _Repeating("mixed-point-counts-d2", [["v5x5", None, M, ["mod3", 0, 3, 1]], ["lens", None, M, ["mod3", 2, 0, 1]], ["fan5", None, M, ["mod3", 1, 0, 4]]], 2, all_cl),
             _Counting("hanging-cell-d2", [["v6x5", first_with_hanging("v6x5", 8), ["mc", 0.12, 0.05], 1], ["v5x5", first_with_hanging("v5x5", 7, 2), M, 2], ["v6x5", first_with_hanging("v6x5", 9, 3), M, 1]], 2, all_cl)]
